@@ -53,3 +53,39 @@ def run_ops(jobs: Sequence[Dict[str, Any]], timeout: int = 1200) -> List[Dict[st
     """``jobs``: [{"model": SdkModel, "ops": [...]}]; one fresh subprocess for all of them."""
     payload = {"sdks": [{"dir": j["model"].sdk_dir, "lite": j["model"].lite, "ops": j["ops"]} for j in jobs]}
     return lib.impl_call("pysdk.py", payload, timeout=timeout)
+
+
+def run_cases_sized(workdir: pathlib.Path, name: str, header: str, case_type: str, bad_fn: str,
+                    terms: Sequence[str], max_chars: int = 500_000, timeout: int = 900):
+    """lib.run_cases with the number of cases per shard chosen from the size of the terms, so
+    that one coqc (about 0.4 GB + 1.4 kB per character of case text) stays well below 2 GB."""
+    if not terms:
+        return [], ""
+    lengths = sorted(len(t) for t in terms)
+    top = lengths[-max(1, len(lengths) // 10):]
+    typical = max(1, sum(top) // len(top))
+    shard = max(1, min(400, max_chars // typical))
+    return lib.run_cases(workdir, name, header, case_type, bad_fn, list(terms), shard=shard, timeout=timeout)
+
+
+def cap_terms(rng, terms: List[Any], size_of, budget_chars: int) -> List[Any]:
+    """Keep a seeded random subset of ``terms`` whose total text size fits the budget
+    (order preserved); everything is kept when it fits."""
+    total = sum(size_of(t) for t in terms)
+    if total <= budget_chars:
+        return terms
+    keep_p = budget_chars / total
+    return [t for t in terms if rng.random() < keep_p]
+
+
+def cleanup(workdir: pathlib.Path, models: Sequence[sdkg.SdkModel] = ()) -> None:
+    """Delete what a run generated: the SDK directories and the cases files."""
+    shutil.rmtree(workdir / "sdks", ignore_errors=True)
+    for m in models:
+        shutil.rmtree(workdir / m.module, ignore_errors=True)
+    for pattern in ("*.v", "*.vo", "*.vok", "*.vos", "*.glob", ".*.aux"):
+        for f in workdir.glob(pattern):
+            try:
+                f.unlink()
+            except OSError:
+                pass
